@@ -672,6 +672,7 @@ fn run_schedule(sc: &Arc<Scenario>, sched: Box<dyn Scheduler + Send>) -> ExecOut
                         shuttle::thread::sleep(std::time::Duration::ZERO);
                     }
                 })),
+                run_scoped: None,
             }));
             let mut handles = Vec::new();
             for (t, ops) in sc2.threads.iter().enumerate() {
